@@ -1658,6 +1658,8 @@ def to_array(v):
         return NDArr.new((len(items),), items)
     if is_num(v):
         return NDArr.new((), [v])
+    if v is None or isinstance(v, (dict, Obj)) or (isinstance(v, Opaque) and v.inert):
+        raise PyRaise("TypeError", f"a numeric array is expected, got {v!r}")
     raise Unsupported(f"array from {type(v).__name__}")
 
 
